@@ -32,6 +32,9 @@ def register_object(obj, contract):
 def ev_call(ex, e, st):
     ftxt = ast.unparse(e.func)
     if _is_log_call(e): return [(st, P_NONE)]
+    if ftxt == 'sum' and 'sum' not in ex.spec.calls and len(e.args) == 1 and isinstance(e.args[0], ast.GeneratorExp):
+        r = _sum_count(ex, e.args[0], st)
+        if r is not None: return r
     # 1. function-specific overrides, keyed by the text of the callee expression
     ov = ex.spec.calls.get(ftxt)
     if ov is not None and not isinstance(ov, C.Contract):
@@ -48,6 +51,20 @@ def ev_call(ex, e, st):
         if isinstance(f, Raise): outs.append((s1, f)); continue
         outs.extend(_with_args(ex, e, s1, lambda s2, pos, named, stars, sargs: call_value(
             ex, s2, f, pos, named, stars, sargs, e, ov)))
+    return outs
+
+
+def _sum_count(ex, g, st):
+    """sum(1 for v in X if v): the number of truthy items of X"""
+    if not (isinstance(g.elt, ast.Constant) and g.elt.value == 1 and len(g.generators) == 1): return None
+    gen = g.generators[0]
+    if not (len(gen.ifs) == 1 and isinstance(gen.ifs[0], ast.Name) and isinstance(gen.target, ast.Name) and gen.ifs[0].id == gen.target.id):
+        return None
+    outs = []
+    for s1, it in ex.ev(gen.iter, st):
+        if isinstance(it, Raise): outs.append((s1, it)); continue
+        arr, n = seq_of(it, s1)
+        outs.append((s1, ZV('int', seq_count_truthy(arr, n))))
     return outs
 
 
@@ -166,6 +183,7 @@ def call_method(ex, st, recv, name, pos, named, stars, sargs, node, ov):
 
 
 _class_cache = {}
+NESTED_CLASSES = {'InputGetter': ('edzed.block', 'CBlock')}
 
 
 def C_class(name):
@@ -174,6 +192,11 @@ def C_class(name):
     import importlib, pkgutil
     import edzed
     found = None
+    if name in NESTED_CLASSES:
+        mod, outer = NESTED_CLASSES[name]
+        found = getattr(getattr(importlib.import_module(mod), outer), name)
+        _class_cache[name] = found
+        return found
     for m in ['edzed.block', 'edzed.simulator', 'edzed.addons', 'edzed.fsm', 'edzed.blocklib.sblocks1', 'edzed.blocklib.sblocks2',
               'edzed.blocklib.cblocks', 'edzed.blocklib.fsms', 'edzed.blocklib.filters', 'edzed.blocklib.cron',
               'edzed.blocklib.timedate', 'edzed.blocklib.timeinterval']:
